@@ -21,7 +21,8 @@ RULE = ("exhaustive: one record of every length 1..L at every line width 1..W (q
         "order/set differs from the file order, genome-encoded intervals with sort_names, results of successive fetches compared "
         "only after all fetches are done; sessions of 2..8 calls on ONE open IndexedFasta (interval fetches whose first interval "
         "starts exactly where the previous read stopped, whole-contig fetches, items()/values(), repeats), every result checked "
-        "right after its call and again after all later calls. Non-trivial = an interval touching or crossing a line break, W = 1, a short last line, "
+        "right after its call and again after all later calls; every kind of case also on the FASTA without its final newline "
+        "(exhaustive block: last line exactly full or short x every interval x both paths). Non-trivial = an interval touching or crossing a line break, W = 1, a short last line, "
         ">= 2 records or a description")
 EXHAUSTIVE = {"quick": True, "thorough": True}
 MODEL_OPS = {"index", "fetch", "contig", "genome", "index_chunked", "create_index", "session"}
@@ -344,6 +345,15 @@ def _rand_recs(rng, maxlen=12, maxw=9, big_file=False):
 
 
 def cases(tier, rng):
+    """every case kind, and a share of them again on the same FASTA WITHOUT its final newline (the last line then ends at
+    the end of the file: full or short)"""
+    for c in _cases(tier, rng):
+        yield c
+        if c["op"] in ("fetch", "contig", "index", "session", "genome") and rng.random() < 0.3:
+            yield dict(c, no_final_newline=True)
+
+
+def _cases(tier, rng):
     big = tier in ("thorough", "widen")
     L, W = (12, 13) if big else (7, 8)
     # 1. exhaustive: length x width x every interval, three access paths
@@ -356,6 +366,17 @@ def cases(tier, rng):
             yield {"op": "contig", "recs": recs, "supplied": False}
             yield {"op": "contig", "recs": recs, "supplied": True}
             yield {"op": "index", "recs": recs}
+    # 1b. no final newline x last line exactly full / short x every interval, last record of the file, all access paths
+    for n in range(1, (L if big else 6) + 1):
+        for w in range(1, n + 1):
+            recs = [{"h": "p", "seq": _seq(rng, rng.randint(1, 5)), "w": rng.randint(1, 3)}, {"h": "a d", "seq": _seq(rng, n), "w": w}]
+            if rng.random() < 0.5:
+                recs = recs[1:]
+            for via in ("lib", "string"):
+                yield {"op": "fetch", "recs": recs, "ivs": _all_intervals("a", n), "supplied": False, "string": via == "string",
+                       "no_final_newline": True}
+            yield {"op": "contig", "recs": recs, "supplied": False, "no_final_newline": True}
+            yield {"op": "index", "recs": recs, "no_final_newline": True}
     # 2. the record of interest preceded / followed by other records (offsets), descriptions
     for n in range(1, L + 1):
         for w in range(1, W + 1):
@@ -516,7 +537,7 @@ def _write(c, supplied=False):
     d = tempfile.mkdtemp(dir=_tmpdir())
     p = os.path.join(d, "x.fa")
     with open(p, "w") as fh:
-        fh.write(file_text(c["recs"]))
+        fh.write(file_text(c["recs"])[:-1] if c.get("no_final_newline") else file_text(c["recs"]))
     if supplied:
         with open(p + ".fai", "w") as fh:
             for row in true_index(c["recs"]):
@@ -834,6 +855,8 @@ def finding_key(c, got, exp):
         return "session:wrong-" + (bad[0] if bad else "result")
     if op == "index_large":
         return "index_large:" + ("wrong-row" if isinstance(got, dict) and got.get("rows") != exp["rows"] else "wrong-fetch")
+    if c.get("no_final_newline") and isinstance(got, dict) and got.get("err") == "other:IndexError":
+        return "fetch:no-final-newline-full-last-line"
     if op == "genome":
         if isinstance(got, dict) and got.get("err") == "other:ValueError" and any(" " in r["h"] for r in c["recs"]):
             return "genome_from_fasta:description-breaks-fai"
